@@ -249,6 +249,60 @@ def r5_unchecked_parse(cx):
         cx.ob("R5", "R5/%s" % g["name"], not sites, g, "reachable from the CRC-less PackHeader parse (first bytes of any file): no explicit panic / unwrap / expect: %s" % sites)
 
 
+ARITH_CALL = r"std::ops::(Sub|Add|Mul|SubAssign|AddAssign|MulAssign)(<.*>)?>::|num::<impl [iu](8|16|32|64|128|size)>::(pow|abs|next_multiple_of|div_ceil|ilog|isqrt)"
+PARSED = r"Parsable>::parse(::<.*>)?$|Parser.*::read_|parsing::.*read_"
+
+
+def r5b_crcless_parse_arithmetic(cx):
+    """values parsed before any CRC was verified (PackHeader at offset 0 of any file) are raw file bytes: a parse impl of
+    that closure does no panicking arithmetic (checked +,-,*,<<,/ or the Size/Offset operators, which are plain +/-) on
+    them unless a comparison of the operands dominates it"""
+    F = cx.F
+    roots = [F.one(impl_self="PackHeader", item="parse", trait="Parsable", closure=False)]
+    reach = [F.fns[x] for x in F.reach(roots) if isinstance(x, int) and "blocks" in F.fns[x]]
+    n = 0
+    for g in sorted(reach, key=lambda x: x["name"]):
+        if not re.search(r"Parsable>::parse$", g["name"]):
+            continue
+        n += 1
+        b = F.body(g)
+        sites = []
+        for i, blk in enumerate(b.blocks):
+            if blk.get("cleanup"):
+                continue
+            cand = []
+            for st in blk["s"]:
+                if st["k"] == "assign" and st["rv"]["k"] == "bin" and st["rv"]["op"] in ("AddWithOverflow", "SubWithOverflow", "MulWithOverflow", "Add", "Sub", "Mul", "Shl", "Div", "Rem", "ShlUnchecked"):
+                    cand.append(([st["rv"]["a"], st["rv"]["b"]], st["rv"]["op"], st.get("ln")))
+            t = blk["t"]
+            if t["k"] == "call" and re.search(ARITH_CALL, callee_str(t)):
+                cand.append((t["args"], callee_str(t).split(">::")[-1], t.get("ln")))
+            for ops, what, ln in cand:
+                o = set()
+                for x in ops:
+                    o |= b.origins(x)
+                parsed = [x for x in o if x[0] == "call" and re.search(PARSED, callee_str(b.term(x[1])))]
+                if not parsed:
+                    continue
+                guarded = False
+                for gd in _guards(b) + [j for j, tt in b.calls(r"PartialOrd.*>::(le|lt|ge|gt)$")]:
+                    if gd != i and b.dominates(gd, i):
+                        gt = b.term(gd)
+                        go = set()
+                        if gt["k"] == "switch":
+                            go |= b.origins(gt["op"])
+                        else:
+                            go = b.origins(gt["args"][0]) | b.origins(gt["args"][1])
+                        if all({y for y in b.origins(x) if y[0] == "call"} & go for x in ops if {y for y in b.origins(x) if y[0] == "call"}):
+                            guarded = True
+                if not guarded:
+                    sites.append("%s at line %s" % (what, ln))
+        cx.ob("R5", "R5/arith/%s" % g["name"], not sites, g,
+              "parse reachable from the CRC-less PackHeader parse: no unguarded panicking arithmetic on just-parsed values: %s" % sites)
+    if n < 4:
+        raise AnchorLost("CRC-less parse closure: only %d Parsable::parse impls found" % n)
+
+
 R6_FUNCS = [
     dict(name="reader::jubako::open_as_container_pack"),
     dict(impl_self="reader::content_pack::cluster::Cluster", item="finalize", trait="DataBlockParsable"),
@@ -356,6 +410,7 @@ RULES = [
     ("R2", r2_terminal_state, 2),
     ("R3", r3_bounds_matrix, 15),
     ("R4", r4_debug_only_guards, 6),
+    ("R5", r5b_crcless_parse_arithmetic, 4),
     ("R5", r5_unchecked_parse, 7),
     ("R6", r6_size_arithmetic, 2),
     ("R7", r7_errors_not_swallowed, 2),
